@@ -17,7 +17,9 @@ func headerHas(h http.Header, key string, want []string) bool {
 	return eq
 }
 
-func visibleASCII(b byte) bool { return b > ' ' && b <= '~' && b != ',' && b != '"' && b != '\\' && b != '<' && b != '>' && b != '&' && b != '%' }
+func visibleASCII(b byte) bool {
+	return b > ' ' && b <= '~' && b != ',' && b != '"' && b != '\\' && b != '<' && b != '>' && b != '&' && b != '%'
+}
 
 // hC05Req: application request headers reach the backend with the same names and (multi-)values.
 func hC05Req() {
